@@ -127,6 +127,15 @@ pub fn check_pos(ctx: &mut Ctx, p: &Pos, b: &Board) {
                 if Move::from_san(&sm.to_string(), b) != Ok(*mv) {
                     ctx.violate(case_pos(p, "san round trip"), format!("SAN round trip of {} fails", mv));
                 }
+                // every output style goes through its formatting buffers
+                for style in [owlchess::moves::Style::San, owlchess::moves::Style::SanUtf8, owlchess::moves::Style::Uci] {
+                    match mv.styled(b, style) {
+                        Ok(t) => {
+                            let _ = t.to_string();
+                        }
+                        Err(e) => ctx.violate(case_pos(p, "styled"), format!("styled({:?}) refuses the legal move {}: {}", style, mv, e)),
+                    }
+                }
             }
         }
         if Move::from_uci(&mv.to_string(), b) != Ok(*mv) {
@@ -471,9 +480,9 @@ pub fn run(run: &mut Run) {
     let thorough = run.thorough();
     run.seq("TABLE INDICES (whole input domain of every index computation)", |ctx| table_indices(ctx));
     let sel = if thorough {
-        Sel { m3: true, ray: Some(3), ep: Some(false), castle: Some(false), promo: Some(false), reach: Some(4), occ: true, pin2: Some(3), multicheck: Some(3), checkpin: Some(3), castle2: true, hemmed: true, counts: true, promorow: true, hist: Some((3, 2)), ..Default::default() }
+        Sel { m3: true, ray: Some(3), ep: Some(false), castle: Some(false), promo: Some(false), reach: Some(4), occ: true, pin2: Some(3), sanmany: true, multicheck: Some(3), checkpin: Some(3), castle2: true, hemmed: true, counts: true, promorow: true, hist: Some((3, 2)), ..Default::default() }
     } else {
-        Sel { m3: true, ray: Some(2), ep: Some(false), ep_spread_only: true, castle: Some(false), promo: Some(false), reach: Some(3), occ: true, multicheck: Some(1), checkpin: Some(1), castle2: true, hemmed: true, counts: true, promorow: true, ..Default::default() }
+        Sel { m3: true, ep: Some(false), ep_spread_only: true, castle: Some(false), promo: Some(false), reach: Some(3), occ: true, sanmany: true, multicheck: Some(1), checkpin: Some(1), castle2: true, hemmed: true, counts: true, promorow: true, ..Default::default() }
     };
     run_universes(run, &sel, DISAGREE, &check_pos);
     run_universes(run, &Sel { dense: true, ..Default::default() }, DISAGREE, &check_pos_slim_short);
